@@ -5,6 +5,14 @@ import random
 import time
 
 
+class _TooLong(BaseException):
+    pass
+
+
+def _too_long(*a):
+    raise _TooLong()
+
+
 def run(tier="quick", seed=0):
     from rig.place_and_route import Machine, Cores, SDRAM
     from rig.place_and_route.allocate.greedy import allocate
@@ -15,14 +23,41 @@ def run(tier="quick", seed=0):
     ev, viol, distinct, samples = 0, [], set(), []
     CAP = 8
 
+    hangs = [0]
+
     def ranges_overlap(a, b):
         return max(a.start, b.start) < min(a.stop, b.stop)
 
     def check(vr, machine, constraints, placements, expect_success, tag):
         nonlocal ev
         ev += 1
+        # the FORM in which the constraints arrive rotates: a list, a tuple, a one-shot iterator, a generator (rig's own
+        # _get_minimal_core_reservations is one); every seventh time the reserved ranges are given with numpy integers as
+        # bounds (unsigned 32-bit, signed 64-bit, unsigned 8-bit in turn), as they are when they come out of array code
+        given = list(constraints)
+        if ev % 7 == 0 and hangs[0] < 3:
+            import numpy as np
+            nt = (np.uint32, np.int64, np.uint8)[(ev // 7) % 3]
+            given = [RRC(c.resource, slice(nt(c.reservation.start), nt(c.reservation.stop)), c.location)
+                     if isinstance(c, RRC) and 0 <= c.reservation.start <= c.reservation.stop < 200 else c for c in given]
+        form = ev % 4
+        passed = given if form == 0 else tuple(given) if form == 1 else iter(given) if form == 2 else (c for c in given)
         try:
-            alloc = allocate(vr, [], machine, constraints, placements)
+            import warnings as _w
+            import signal as _sig
+            with _w.catch_warnings():
+                _w.simplefilter("ignore")
+                # (an allocation on these problems takes microseconds: one that has not returned after 20 s of process time
+                #  does not return)
+                _sig.signal(_sig.SIGVTALRM, _too_long)
+                _sig.setitimer(_sig.ITIMER_VIRTUAL, 20.0 if hangs[0] == 0 else 2.0)
+                try:
+                    alloc = allocate(vr, [], machine, passed, placements)
+                finally:
+                    _sig.setitimer(_sig.ITIMER_VIRTUAL, 0)
+        except _TooLong:
+            hangs[0] += 1
+            return "allocate() has not returned after %d s of process time" % (20 if hangs[0] == 1 else 2)
         except InsufficientResourceError:
             if expect_success:
                 return "InsufficientResourceError although the placement is feasible, there is no alignment and reservations are only at the ends"
